@@ -438,7 +438,8 @@ def write_summary_file_vue(stats, filepath, year=2025, currency_format="${amount
     # Assemble final HTML
     # '<' is written as \u003c so that text such as '</script>' or '<!--' inside a
     # description, tag or merchant name cannot end or confuse the <script> element
-    data_json = json.dumps(spending_data).replace('<', '\\u003c')
+    # default=str: extra fields may hold dates (from supplemental data rows)
+    data_json = json.dumps(spending_data, default=str).replace('<', '\\u003c')
     data_script = f'window.spendingData = {data_json};'
 
     if not embedded_html:
